@@ -1058,14 +1058,19 @@ pub fn env_of(decls: impl IntoIterator<Item = Decl>) -> Env {
 /// One-step structural mutants of `v`: drop a property, null a property, grow/shrink arrays,
 /// replace a string by one of `alts`.
 pub fn mutants(v: &Value, alts: &[String]) -> Vec<Value> {
+    mutants2(v, alts, alts)
+}
+
+/// Like `mutants`, with separate replacement alphabets for property keys and for string values.
+pub fn mutants2(v: &Value, key_alts: &[String], string_alts: &[String]) -> Vec<Value> {
     let mut out = vec![];
-    mutants_rec(v, alts, &mut |m| out.push(m));
+    mutants_rec(v, key_alts, string_alts, &mut |m| out.push(m));
     dedup(&mut out);
     out.retain(|m| m != v);
     out
 }
 
-fn mutants_rec(v: &Value, alts: &[String], emit: &mut dyn FnMut(Value)) {
+fn mutants_rec(v: &Value, alts: &[String], salts: &[String], emit: &mut dyn FnMut(Value)) {
     match v {
         Value::Object(m) => {
             for k in m.keys() {
@@ -1087,7 +1092,7 @@ fn mutants_rec(v: &Value, alts: &[String], emit: &mut dyn FnMut(Value)) {
             }
             for (k, x) in m {
                 let mut sub = vec![];
-                mutants_rec(x, alts, &mut |mm| sub.push(mm));
+                mutants_rec(x, alts, salts, &mut |mm| sub.push(mm));
                 for s in sub {
                     let mut c = m.clone();
                     c.insert(k.clone(), s);
@@ -1108,7 +1113,7 @@ fn mutants_rec(v: &Value, alts: &[String], emit: &mut dyn FnMut(Value)) {
             }
             for (i, x) in xs.iter().enumerate() {
                 let mut sub = vec![];
-                mutants_rec(x, alts, &mut |mm| sub.push(mm));
+                mutants_rec(x, alts, salts, &mut |mm| sub.push(mm));
                 for s in sub {
                     let mut c = xs.clone();
                     c[i] = s;
@@ -1117,7 +1122,7 @@ fn mutants_rec(v: &Value, alts: &[String], emit: &mut dyn FnMut(Value)) {
             }
         }
         Value::String(s) => {
-            for a in alts {
+            for a in salts {
                 if a != s {
                     emit(Value::String(a.clone()));
                 }
